@@ -792,6 +792,11 @@ impl<'a> Model<'a> {
                     let sheet = left.sheet;
                     let row = left.row;
                     let column = left.column;
+                    // The size of the spill is only known once the anchor has been evaluated in
+                    // this pass: a reader that comes earlier in the evaluation order would
+                    // otherwise use the range stored by the previous evaluation (or (1,1) for a
+                    // formula that has never been evaluated).
+                    let _ = self.evaluate_cell(CellReferenceIndex { sheet, row, column });
                     let worksheet = match self.workbook.worksheet(sheet) {
                         Ok(s) => s,
                         Err(e) => {
